@@ -103,7 +103,7 @@ fn c02_one(ti: usize, data: &[u8], extreme: Option<usize>, l: &mut Local) -> Cas
     let c = || cj(t, data, extreme, "C02");
     let Ok(call) = v.call() else { return Ok(()) };
     // conformance of the call tree to the schema is C14's business; skip what does not fit
-    let Ok(val) = crate::record::call_to_value(&call, &shape) else { return Ok(()) };
+    let Ok(val) = crate::record_value::call_to_value(&call, &shape) else { return Ok(()) };
     let Ok(want) = ref_encode(&shape, &val) else { return Ok(()) };
     l.eval();
     let got = no_panic(|| v.bytes()).map_err(|p| fail("corpus-wire", format!("{}: to_allocvec panicked: {}", t.name, p), c()))?;
@@ -369,7 +369,61 @@ fn top_variant(c: &crate::record::Call) -> Option<u32> {
     }
 }
 
+/// The `alloc`-without-`use-std` flavour of postcard-schema is a different set of impls (impls/builtins_alloc.rs); it is
+/// compiled into the separate binary harness-alloc (pcv-alloc), which runs the same recording + conformance oracle.
+fn c14_alloc_flavour(verif_dir: &std::path::Path, seed: u64, cases: u64, only: Option<&str>, l: &mut Local) -> Result<Option<String>, crate::runner::Fail> {
+    let exe = verif_dir.join("harness/target/alloc-flavour/release/pcv-alloc");
+    let mut cmd = std::process::Command::new(&exe);
+    cmd.arg(seed.to_string()).arg(cases.to_string());
+    if let Some(o) = only {
+        cmd.arg(o);
+    }
+    let out = match cmd.output() {
+        Ok(o) if o.status.success() => o,
+        Ok(o) => return Ok(Some(format!("pcv-alloc exited with {:?}: {}", o.status, String::from_utf8_lossy(&o.stderr).lines().last().unwrap_or("")))),
+        Err(e) => return Ok(Some(format!("cannot run {}: {}", exe.display(), e))),
+    };
+    let text = String::from_utf8_lossy(&out.stdout);
+    let Some(doc) = text.lines().rev().find_map(|ln| serde_json::from_str::<Json>(ln).ok()) else {
+        return Ok(Some("pcv-alloc printed no summary".into()));
+    };
+    l.evals_n(doc["evaluations"].as_u64().unwrap_or(0));
+    l.nontrivial_enum(doc["nontrivial"].as_u64().unwrap_or(0));
+    if let Some(m) = doc["per_type"].as_object() {
+        for (k, v) in m {
+            l.class_n(&format!("alloc-only:{}", k), v.as_u64().unwrap_or(0));
+        }
+    }
+    if let Some(a) = doc["samples"].as_array() {
+        for x in a.iter().take(3) {
+            l.sample(|| x.as_str().unwrap_or("").to_string());
+        }
+    }
+    if !doc["failure"].is_null() {
+        let f = &doc["failure"];
+        return Err(fail(
+            "schema-conform",
+            format!(
+                "postcard-schema built with `alloc` (no `use-std`): {} value {} does not serialise as its Schema `{}` says: {}",
+                f["type"].as_str().unwrap_or("?"),
+                f["value"].as_str().unwrap_or("?"),
+                f["schema"].as_str().unwrap_or("?"),
+                f["why"].as_str().unwrap_or("?")
+            ),
+            json!({"alloc_only": {"type": f["type"], "seed": seed, "cases": cases, "value": f["value"]}}),
+        ));
+    }
+    Ok(None)
+}
+
 pub fn c14_replay(case: &Json, l: &mut Local) -> CaseResult {
+    if let Some(a) = case.get("alloc_only") {
+        let vd = std::path::PathBuf::from(std::env::var("VERIF_DIR").unwrap_or_else(|_| "/verif".into()));
+        return match c14_alloc_flavour(&vd, a["seed"].as_u64().unwrap_or(1), a["cases"].as_u64().unwrap_or(1000), a["type"].as_str(), l)? {
+            Some(why) => Err(fail("schema-conform", format!("replay: {}", why), case.clone())),
+            None => Ok(()),
+        };
+    }
     let Some(ti) = find(case["corpus_type"].as_str().unwrap_or("")) else {
         return Err(fail("schema-conform", "replay: unknown corpus type (generated corpus differs?)", case.clone()));
     };
@@ -380,7 +434,7 @@ pub fn c14_replay(case: &Json, l: &mut Local) -> CaseResult {
 pub fn c14(ctx: &Ctx) {
     ctx.set_rule(
         "cases: every built-in Schema impl (ints, NonZero*, floats, char, str/String/PathBuf, (), tuples 1-6, arrays, Vec/sets, maps, \
-         Option, Result, 4 ranges, heapless 0.7/0.8, Uuid, DateTime<Utc|FixedOffset>, SMatrix, Key, DataModelType, OwnedDataModelType) \
+         Option, Result, 4 ranges, the alloc-only (no use-std) Vec/String/BTreeMap/BTreeSet impls via the pcv-alloc binary, heapless 0.7/0.8, Uuid, DateTime<Utc|FixedOffset>, SMatrix, Key, DataModelType, OwnedDataModelType) \
          and hand-written + generated derive users (unit/newtype/tuple/named structs, all four variant forms, generics, nesting, raw \
          identifiers) x values covering every variant (extremes) + random values. oracle: the serde call tree recorded for the value \
          conforms strictly to T::SCHEMA (kinds, field names and order, variant names and indices, arity, element types; Schema kind \
@@ -394,6 +448,13 @@ pub fn c14(ctx: &Ctx) {
     ctx.extra.lock().unwrap().insert("generated_corpus_seed".into(), json!(corpus::generated::SEED));
     let ex = all_extremes(|t| t.schema.is_some());
     ctx.par_range("extremes", ex.len() as u64, |i, l| c14_one(ex[i as usize].0, &[], Some(ex[i as usize].1), l));
+    let na = ctx.tier.pick(1500, 25_000);
+    ctx.serial("alloc-only-flavour", |l| {
+        if let Some(why) = c14_alloc_flavour(&ctx.verif_dir, ctx.seed, na, None, l)? {
+            ctx.inconclusive.lock().unwrap().push(format!("alloc-only-flavour: {}", why));
+        }
+        Ok(())
+    });
     let n = ctx.tier.pick(2_000_000, 20_000_000);
     ctx.par_proptest("random-values", n, || arb_case(|t| t.schema.is_some()), |(ti, d), l| c14_one(*ti, d, None, l));
 }
